@@ -211,11 +211,14 @@ theorem cmd_fidelity_append_sem (cfg : Cfg) (m : List Nat) (flags : List Str) (t
 /-- SEARCH / UID SEARCH: every criteria tree — sequence and UID sets, the four date bounds (a since/before pair
     on consecutive days travels as ON), header fields (the five address/subject keys as their own keys), BODY,
     TEXT, flags and negated flags (system flags as their own keys, others as KEYWORD), LARGER, SMALLER, and
-    arbitrarily nested NOT / OR — with any return options, with or without CHARSET UTF-8.  `CritOK`: sets
-    canonical, strings within the server's limit, flags the encoder accepts, sizes non-negative. -/
-theorem cmd_fidelity_search (cfg : Cfg) (tag : Nat) (uid : Bool) (c : Crit) (o : Option SearchOpts) (hok : CritOK c) :
+    nested NOT / OR — with any return options, with or without CHARSET UTF-8.  `CritOK`: sets canonical,
+    strings within the server's limit, flags the encoder accepts, sizes non-negative.  `depth c < 1000`: the
+    decoder refuses to open the 1000th nested parenthesised list (and NOT/OR below depth 1000), so a deeper
+    tree is answered NO — the nesting limit of the server, like the 4096-byte limit for strings. -/
+theorem cmd_fidelity_search (cfg : Cfg) (tag : Nat) (uid : Bool) (c : Crit) (o : Option SearchOpts) (hok : CritOK c)
+    (hd : depth c < maxListDepth) :
     roundTrip {} cfg tag (.search uid c o) = .calls (sem cfg (.search uid c o)) :=
-  search_fidelity cfg tag uid c o hok
+  search_fidelity cfg tag uid c o hok hd
 
 /-- non-vacuity: `SMALLER 5 FROM "é" SINCE/BEFORE (one day) NOT (LARGER 1 \\Seen) OR (TEXT "x") (UID 1:3,7:*)` -/
 def sampleCrit : Crit :=
@@ -223,6 +226,8 @@ def sampleCrit : Crit :=
         before := { day := jan1 + 86400, inst := jan1 + 90000 } }
     (.cons (.mk { larger := 1, flags := [[92, 83, 101, 101, 110]] } .nil .nil) .nil)
     (.cons (.mk { text := [str "x"] } .nil .nil) (.mk { uidSets := [.set [⟨1, 3⟩, ⟨7, 0⟩]] } .nil .nil) .nil)
+
+example : depth sampleCrit < maxListDepth := by decide
 
 example : CritOK sampleCrit := by
   have hset : SetOK (.set [⟨1, 3⟩, ⟨7, 0⟩]) ∧ SetNF (.set [⟨1, 3⟩, ⟨7, 0⟩]) := by
